@@ -382,8 +382,13 @@ func ruleWatchEveryWrite(c *Ctx) {
 		n++
 		w, calls := 0, 0
 		for _, l := range pr.Conds {
-			if l.Pol && l.Atom.Op == "eq" && l.Atom.contains(func(x *Term) bool { return (x.Op == "fld" || x.Op == "fa") && x.Name == "Op" }) {
+			isZero := len(l.Atom.Args) == 2 && (isZeroInt(l.Atom.Args[0]) || isZeroInt(l.Atom.Args[1]))
+			if l.Atom.Op == "eq" && l.Pol != isZero && l.Atom.contains(func(x *Term) bool { return (x.Op == "fld" || x.Op == "fa") && x.Name == "Op" }) {
 				w++
+				// Op is a bit set (kqueue reports a rewrite as Write|Chmod): the test must mask the Write bit
+				if !l.Atom.contains(func(x *Term) bool { return x.Op == "bin" && x.Name == "&" }) {
+					bad = append(bad, "a write event is recognised by comparing the whole Op bit set ("+l.Atom.String()+"): an event that carries Write together with another bit is not applied")
+				}
 			}
 		}
 		for _, e := range pr.Events {
@@ -396,7 +401,7 @@ func ruleWatchEveryWrite(c *Ctx) {
 		// error value delivered by the watcher is not the end of watching
 		var last *Event
 		for _, e := range pr.Events {
-			if (e.Kind == "select" || e.Kind == "recv") && e.Depth == 0 {
+			if e.Kind == "select" || e.Kind == "recv" {
 				last = e
 			}
 		}
